@@ -1165,7 +1165,7 @@ def shape_of(prog):
     return ("seq", prog[2], "TLV" if prog[3] == "TLV" else tuple(sorted(prog[3])))
 
 
-CAP_QUICK = 700
+CAP_QUICK = 400
 CAP_THOROUGH_4 = 1300
 NOCAP = 1 << 40
 
